@@ -353,6 +353,11 @@ class DirectoryRecord:
         if self.parent is None:
             raise pycdlibexception.PyCdlibInternalError('Invalid call to create new Rock Ridge on root directory')
 
+        if self.dr_len + rockridge.RRCERecord.length() > rockridge.ALLOWED_DR_SIZE:
+            # Not even the entry that points at a continuation area fits
+            # behind an identifier this long.
+            raise pycdlibexception.PyCdlibInvalidInput('Name is too long to leave room for the Rock Ridge entries in the directory record')
+
         self.rock_ridge = rockridge.RockRidge()
         is_first_dir_record_of_root = self.file_ident == b'\x00' and self.parent.is_root
         bytes_to_skip = 0
